@@ -75,22 +75,6 @@ Proof. intros H. unfold replace_with. cbn [h_path h_tid]. rbind; [eapply runs_ge
 Definition st5 (ts : list slot) (r0 : hnd) (a b c d : option hnd) : state :=
   mk_state ts [Some r0; a; b; c; d].
 
-Lemma relations_insert_root ts tid ri T a b d te re G idx :
-  nth_error ts tid = Some (mk_slot true ri T) ->
-  nth_error ts te = Some (mk_slot true re G) ->
-  runs (relations_insert fixed 0 idx 3) (st5 ts (mk_hnd tid []) a b (Some (mk_hnd te [])) d) tt
-       (st5 (ts ++ [mk_slot true 0 (relations_insert_green fixed T idx G)])
-            (mk_hnd (length ts) []) a b None d).
-Proof.
-  intros HT HG. unfold relations_insert, st5.
-  rbind; [apply runs_get_reg; reflexivity|].
-  rbind; [eapply runs_node_of; [exact HT|reflexivity]|].
-  rbind; [unfold node_of_reg; rbind; [apply runs_get_reg; reflexivity|]; eapply runs_node_of; [exact HG|reflexivity]|].
-  rbind; [eapply runs_replace_with_root; exact HT|].
-  rbind; [unfold reroot_self; rbind; [apply runs_alloc|]; apply runs_set_reg|].
-  apply runs_set_reg.
-Qed.
-
 (* ------------------------------------------------------------------ detach / attach *)
 Lemma parent_h_app tid p i : parent_h (mk_hnd tid (p ++ [i])) = Some (mk_hnd tid p, i).
 Proof. unfold parent_h. cbn [h_path h_tid]. now rewrite split_last_app. Qed.
@@ -495,6 +479,319 @@ Proof.
     rewrite rebase_detach_at. apply rebase_attach_root. lia.
   - unfold F1. rewrite rebase_detach_root. apply rebase_attach_child.
   - intros g Hg Ha. unfold F1. rewrite rebase_detach_above by exact Ha. now apply rebase_attach_above.
+Qed.
+
+(* ------------------------------------------------------------------ splice_children(idx..idx, freshly built elements) *)
+Lemma runs_push_tmps hs : forall ts rs,
+  runs (push_tmps hs) (mk_state ts rs) (seq (length rs) (length hs)) (mk_state ts (rs ++ map Some hs)).
+Proof.
+  induction hs as [|h r IH]; intros ts rs; cbn [push_tmps length seq map].
+  - rewrite app_nil_r. rdone.
+  - rbind; [apply runs_push_tmp|]. rbind; [apply IH|]. rewrite app_length. cbn [length]. rewrite Nat.add_1_r.
+    eapply runs_eq; [rdone|reflexivity|]. now rewrite <- app_assoc.
+Qed.
+Lemma nth_error_map_seq {A} (f : nat -> A) n : forall a j, j < n -> nth_error (map f (seq a n)) j = Some (f (a + j)).
+Proof.
+  induction n as [|n IH]; intros a j H; [lia|]. destruct j as [|j]; cbn [seq map nth_error].
+  - now rewrite Nat.add_0_r.
+  - rewrite IH by lia. f_equal. f_equal. lia.
+Qed.
+Lemma insert_at_step {A} (idx : nat) (x : A) (tl : list A) : forall cs, idx <= length cs ->
+  insert_at (S idx) tl (insert_at idx [x] cs) = insert_at idx (x :: tl) cs.
+Proof.
+  induction idx as [|idx IH]; intros cs H.
+  - reflexivity.
+  - destruct cs as [|y r]; [cbn in H; lia|]. rewrite !insert_at_S. f_equal. apply IH. cbn in H. lia.
+Qed.
+
+(* the tokens that detached_tokens made: the children of the throw-away node (tt, []), in registers crs *)
+Lemma attach_tokens : forall (toks : list rtree) crs ts rs pr tid ri T p kd cs idx tk rt,
+  nth_error rs pr = Some (Some (mk_hnd tid p)) ->
+  nth_error ts tid = Some (mk_slot true ri T) -> get_path T p = Some (Node kd cs) -> idx <= length cs ->
+  nth_error ts tk = Some (mk_slot true rt (Node ROOT toks)) -> tid <> tk ->
+  length crs = length toks ->
+  (forall m cr, nth_error crs m = Some cr -> nth_error rs cr = Some (Some (mk_hnd tk ([] ++ [m])))) ->
+  exists ts' F,
+    runs (m_attach_all pr idx crs) (mk_state ts rs) tt (mk_state ts' (map (option_map F) rs)) /\
+    length ts <= length ts' /\
+    nth_error ts' tid = Some (mk_slot true ri (upd_path T p (fun _ => Node kd (insert_at idx toks cs)))) /\
+    (forall j, j <> tid -> j <> tk -> j < length ts -> nth_error ts' j = nth_error ts j) /\
+    (forall g, h_tid g < length ts -> h_tid g <> tk -> above tid p g -> F g = g) /\
+    (forall c rest, F (mk_hnd tid (p ++ c :: rest)) = mk_hnd tid (p ++ (if idx <=? c then c + length toks else c) :: rest)).
+Proof.
+  induction toks as [|x toks' IH]; intros crs ts rs pr tid ri T p kd cs idx tk rt Hpr HT HG Hidx HTt Hne Hlen Hcrs.
+  - destruct crs; [|discriminate]. exists ts, (fun g => g). rewrite map_option_map_id.
+    split; [cbn [m_attach_all]; rdone|]. split; [lia|]. split.
+    { unfold insert_at. cbn [app]. rewrite firstn_skipn. now rewrite (upd_path_same _ _ _ HG). }
+    split; [auto|]. split; [auto|]. intros c rest. cbn [length]. rewrite Nat.add_0_r. now destruct (idx <=? c).
+  - destruct crs as [|cr crs']; [discriminate|]. cbn [length] in Hlen.
+    pose proof (nth_error_Some_lt _ _ _ HT) as Hlt. pose proof (nth_error_Some_lt _ _ _ HTt) as Hltt.
+    pose proof (Hcrs 0 cr eq_refl) as Hcr.
+    assert (HGx : get_path (Node ROOT (x :: toks')) ([] ++ [0]) = Some x) by reflexivity.
+    destruct (detach_h_spec ts rs tk rt (Node ROOT (x :: toks')) [] 0 x HTt HGx) as (ts1 & R1 & L1 & T1 & N1 & O1).
+    set (F1 := rebase_detach tk [] 0 (length ts)) in *. cbn [upd_path children set_children ekind remove_nth firstn skipn app] in T1.
+    assert (HT1 : nth_error ts1 tid = Some (mk_slot true ri T)) by (rewrite O1 by (auto; lia); exact HT).
+    destruct (attach_h_spec ts1 (map (option_map F1) rs) tid ri T p kd cs idx (length ts) 0 x HT1 HG N1 ltac:(lia) Hidx)
+      as (ts2 & R2 & L2 & T2 & O2).
+    set (F2 := rebase_attach tid p idx (length ts)) in *.
+    assert (ET2 : upd_path T p (fun q => set_children (insert_at idx [x] (children q)) q) = upd_path T p (fun _ => Node kd (insert_at idx [x] cs))).
+    { eapply upd_path_ext; [exact HG|]. reflexivity. }
+    rewrite ET2 in T2. set (T' := upd_path T p (fun _ => Node kd (insert_at idx [x] cs))) in *.
+    assert (HG' : get_path T' p = Some (Node kd (insert_at idx [x] cs))) by (unfold T'; now apply get_path_upd_path with (n := Node kd cs)).
+    assert (HTt2 : nth_error ts2 tk = Some (mk_slot true rt (Node ROOT toks'))) by (rewrite O2 by lia; exact T1).
+    assert (Hpr2 : nth_error (map (option_map F2) (map (option_map F1) rs)) pr = Some (Some (mk_hnd tid p))).
+    { rewrite (nth_error_map_reg F2 _ _ (F1 (mk_hnd tid p))) by (now apply nth_error_map_reg).
+      f_equal. f_equal. unfold F1. rewrite rebase_detach_other by (cbn; congruence). unfold F2. apply rebase_attach_self. lia. }
+    assert (Hcrs2 : forall m cr', nth_error crs' m = Some cr' ->
+              nth_error (map (option_map F2) (map (option_map F1) rs)) cr' = Some (Some (mk_hnd tk ([] ++ [m])))).
+    { intros m cr' Hm. pose proof (Hcrs (S m) cr' Hm) as Hc.
+      rewrite (nth_error_map_reg F2 _ _ (F1 (mk_hnd tk ([] ++ [S m])))) by (now apply nth_error_map_reg).
+      f_equal. f_equal. unfold F1. rewrite (rebase_detach_after tk [] 0 _ (S m) []) by lia. unfold F2.
+      rewrite rebase_attach_above; [cbn [app]; do 2 f_equal; f_equal; lia|cbn; lia|apply above_other; cbn; congruence]. }
+    assert (Hidx' : S idx <= length (insert_at idx [x] cs)) by (rewrite insert_at_length; cbn; lia).
+    destruct (IH crs' ts2 (map (option_map F2) (map (option_map F1) rs)) pr tid ri T' p kd (insert_at idx [x] cs) (S idx) tk rt
+                Hpr2 T2 HG' Hidx' HTt2 Hne ltac:(lia) Hcrs2)
+      as (ts3 & F3 & R3 & L3 & T3 & O3 & A3 & B3).
+    exists ts3, (fun g => F3 (F2 (F1 g))).
+    replace (map (option_map (fun g => F3 (F2 (F1 g)))) rs)
+      with (map (option_map F3) (map (option_map F2) (map (option_map F1) rs))) by (now rewrite !map_option_map_comp).
+    split; [|split; [|split; [|split; [|split]]]].
+    + cbn [m_attach_all]. rbind; [|exact R3]. unfold m_attach_child.
+      rbind; [apply runs_get_reg; exact Hcr|]. rbind; [exact R1|].
+      rbind; [apply runs_get_reg; apply (nth_error_map_reg F1 _ _ _ Hpr)|].
+      unfold F1 at 1. rewrite rebase_detach_other by (cbn; congruence).
+      rbind; [apply runs_get_reg; apply (nth_error_map_reg F1 _ _ _ Hcr)|].
+      unfold F1 at 1. rewrite (rebase_detach_at tk [] 0 _ []). exact R2.
+    + lia.
+    + rewrite T3. unfold T'. rewrite (upd_path_const2 _ _ _ _ _ HG). f_equal. f_equal.
+      eapply upd_path_ext; [exact HG|]. now rewrite insert_at_step.
+    + intros j H1 H2 H3. rewrite O3 by lia. rewrite O2 by lia. now apply O1.
+    + intros g Hg Ht Ha. unfold F1. rewrite rebase_detach_other by exact Ht. unfold F2.
+      rewrite rebase_attach_above by (auto; lia). apply A3; [lia|exact Ht|exact Ha].
+    + intros c rest. unfold F1. rewrite rebase_detach_other by (cbn; congruence). unfold F2.
+      destruct (idx <=? c) eqn:E.
+      * apply Nat.leb_le in E. rewrite rebase_attach_after by (auto; lia). rewrite B3.
+        assert (S idx <=? S c = true) as -> by (apply Nat.leb_le; lia). do 3 f_equal. cbn [length]. lia.
+      * apply Nat.leb_gt in E. rewrite rebase_attach_before by (auto; lia). rewrite B3.
+        assert (S idx <=? c = false) as -> by (apply Nat.leb_gt; lia). reflexivity.
+Qed.
+
+(* the elements of a splice, as they were made: each phase is one call of detached_tokens (the
+   children of a throw-away node) or one fresh node (a root of its own) *)
+Record phase := mk_phase { ph_tree : nat; ph_root : bool; ph_elems : list rtree; ph_regs : list nat }.
+Definition phase_ok (ts : list slot) (rs : list (option hnd)) (ph : phase) : Prop :=
+  if ph_root ph then
+    exists N cr rc, ph_elems ph = [N] /\ ph_regs ph = [cr] /\
+                    nth_error rs cr = Some (Some (mk_hnd (ph_tree ph) [])) /\
+                    nth_error ts (ph_tree ph) = Some (mk_slot true rc N)
+  else
+    length (ph_regs ph) = length (ph_elems ph) /\
+    (forall m cr, nth_error (ph_regs ph) m = Some cr -> nth_error rs cr = Some (Some (mk_hnd (ph_tree ph) ([] ++ [m])))) /\
+    exists rt, nth_error ts (ph_tree ph) = Some (mk_slot true rt (Node ROOT (ph_elems ph))).
+Lemma phase_ok_lt ts rs ph : phase_ok ts rs ph -> ph_tree ph < length ts.
+Proof.
+  unfold phase_ok. destruct (ph_root ph).
+  - intros (N & cr & rc & _ & _ & _ & H). now apply nth_error_Some_lt in H.
+  - intros (_ & _ & rt & H). now apply nth_error_Some_lt in H.
+Qed.
+
+Lemma m_attach_all_app pr a : forall idx b st st1 st2,
+  runs (m_attach_all pr idx a) st tt st1 -> runs (m_attach_all pr (idx + length a) b) st1 tt st2 ->
+  runs (m_attach_all pr idx (a ++ b)) st tt st2.
+Proof.
+  induction a as [|x r IH]; intros idx b st st1 st2 H1 H2.
+  - cbn [m_attach_all] in H1. unfold runs, ret in H1. injection H1 as <-. cbn [length app] in *. now rewrite Nat.add_0_r in H2.
+  - cbn [app m_attach_all] in *. unfold runs, mbind in H1 |- *. destruct (m_attach_child pr idx x st) as [[u s']| | |]; try discriminate.
+    apply (IH (S idx) b s' st1 st2 H1). cbn [length] in H2. now rewrite Nat.add_succ_r in H2.
+Qed.
+Lemma insert_at_app2 {A} (X Y : list A) : forall idx cs, idx <= length cs ->
+  insert_at (idx + length X) Y (insert_at idx X cs) = insert_at idx (X ++ Y) cs.
+Proof.
+  induction X as [|x X IH]; intros idx cs H.
+  - cbn [length app]. rewrite Nat.add_0_r. unfold insert_at at 2. cbn [app]. now rewrite firstn_skipn.
+  - cbn [length app]. rewrite <- (insert_at_step idx x X cs H), <- (insert_at_step idx x (X ++ Y) cs H).
+    rewrite Nat.add_succ_r, <- Nat.add_succ_l. apply IH. rewrite insert_at_length. cbn. lia.
+Qed.
+
+Lemma attach_phases : forall (phs : list phase) ts rs pr tid ri T p kd cs idx,
+  nth_error rs pr = Some (Some (mk_hnd tid p)) ->
+  nth_error ts tid = Some (mk_slot true ri T) -> get_path T p = Some (Node kd cs) -> idx <= length cs ->
+  Forall (phase_ok ts rs) phs -> NoDup (map ph_tree phs) -> ~ In tid (map ph_tree phs) ->
+  exists ts' F,
+    runs (m_attach_all pr idx (flat_map ph_regs phs)) (mk_state ts rs) tt (mk_state ts' (map (option_map F) rs)) /\
+    length ts <= length ts' /\
+    nth_error ts' tid = Some (mk_slot true ri (upd_path T p (fun _ => Node kd (insert_at idx (flat_map ph_elems phs) cs)))) /\
+    (forall j, j <> tid -> ~ In j (map ph_tree phs) -> j < length ts -> nth_error ts' j = nth_error ts j) /\
+    (forall g, h_tid g < length ts -> ~ In (h_tid g) (map ph_tree phs) -> above tid p g -> F g = g) /\
+    (forall c rest, F (mk_hnd tid (p ++ c :: rest)) =
+                    mk_hnd tid (p ++ (if idx <=? c then c + length (flat_map ph_elems phs) else c) :: rest)).
+Proof.
+  induction phs as [|ph phs IH]; intros ts rs pr tid ri T p kd cs idx Hpr HT HG Hidx Hok Hnd Hnin.
+  - exists ts, (fun g => g). rewrite map_option_map_id. split; [cbn [flat_map m_attach_all]; rdone|]. split; [lia|]. split.
+    { cbn [flat_map]. unfold insert_at. cbn [app]. rewrite firstn_skipn. now rewrite (upd_path_same _ _ _ HG). }
+    split; [auto|]. split; [auto|]. intros c rest. cbn [flat_map length]. rewrite Nat.add_0_r. now destruct (idx <=? c).
+  - inversion Hok as [|? ? Hph Hrest]; subst. cbn [map] in Hnd, Hnin. inversion Hnd as [|? ? Hni Hnd']; subst.
+    pose proof (nth_error_Some_lt _ _ _ HT) as Hlt. pose proof (phase_ok_lt _ _ _ Hph) as Hltk.
+    assert (Hne : tid <> ph_tree ph) by (intros E; apply Hnin; now left).
+    (* the first phase *)
+    assert (H1 : exists ts1 F1,
+              runs (m_attach_all pr idx (ph_regs ph)) (mk_state ts rs) tt (mk_state ts1 (map (option_map F1) rs)) /\
+              length ts <= length ts1 /\
+              nth_error ts1 tid = Some (mk_slot true ri (upd_path T p (fun _ => Node kd (insert_at idx (ph_elems ph) cs)))) /\
+              (forall j, j <> tid -> j <> ph_tree ph -> j < length ts -> nth_error ts1 j = nth_error ts j) /\
+              (forall g, h_tid g < length ts -> h_tid g <> ph_tree ph -> above tid p g -> F1 g = g) /\
+              (forall c rest, F1 (mk_hnd tid (p ++ c :: rest)) = mk_hnd tid (p ++ (if idx <=? c then c + length (ph_elems ph) else c) :: rest))).
+    { unfold phase_ok in Hph. destruct (ph_root ph).
+      - destruct Hph as (N & cr & rc & -> & -> & Hcr & HN).
+        destruct (attach_child_spec ts rs pr cr tid ri T p kd cs idx (ph_tree ph) rc N Hpr Hcr HT HG HN Hne Hidx) as (ts1 & R1 & L1 & T1 & O1).
+        exists ts1, (rebase_attach tid p idx (ph_tree ph)). split; [cbn [m_attach_all]; rbind; [exact R1|rdone]|].
+        split; [lia|]. split; [exact T1|]. split; [intros j H1 H2 H3; now apply O1|]. split.
+        + intros g Hg Ht Ha. now apply rebase_attach_above.
+        + intros c rest. cbn [length]. destruct (idx <=? c) eqn:E.
+          * apply Nat.leb_le in E. rewrite rebase_attach_after by (auto; lia). do 3 f_equal. lia.
+          * apply Nat.leb_gt in E. now rewrite rebase_attach_before by (auto; lia).
+      - destruct Hph as (Hlen & Hregs & rt & HTk).
+        exact (attach_tokens (ph_elems ph) (ph_regs ph) ts rs pr tid ri T p kd cs idx (ph_tree ph) rt Hpr HT HG Hidx HTk Hne Hlen Hregs). }
+    destruct H1 as (ts1 & F1 & R1 & L1 & T1 & O1 & A1 & B1).
+    set (X := ph_elems ph) in *. set (T' := upd_path T p (fun _ => Node kd (insert_at idx X cs))) in *.
+    assert (HG' : get_path T' p = Some (Node kd (insert_at idx X cs))) by (unfold T'; now apply get_path_upd_path with (n := Node kd cs)).
+    assert (Hpr1 : nth_error (map (option_map F1) rs) pr = Some (Some (mk_hnd tid p))).
+    { rewrite (nth_error_map_reg F1 _ _ _ Hpr). f_equal. f_equal. apply A1; [cbn; lia|cbn; congruence|apply above_self]. }
+    assert (Hok1 : Forall (phase_ok ts1 (map (option_map F1) rs)) phs).
+    { rewrite Forall_forall in *. intros q Hq. specialize (Hrest q Hq). pose proof (phase_ok_lt _ _ _ Hrest) as Hlq.
+      assert (Hq1 : ph_tree q <> ph_tree ph) by (intros E; apply Hni; rewrite <- E; now apply in_map).
+      assert (Hq2 : ph_tree q <> tid) by (intros E; apply Hnin; right; rewrite <- E; now apply in_map).
+      unfold phase_ok in *. destruct (ph_root q).
+      - destruct Hrest as (N & cr & rc & E1 & E2 & Hcr & HN). exists N, cr, rc. split; [exact E1|]. split; [exact E2|]. split.
+        + rewrite (nth_error_map_reg F1 _ _ _ Hcr). f_equal. f_equal. apply A1; [cbn; lia|cbn; congruence|apply above_other; cbn; congruence].
+        + rewrite O1 by (auto; lia). exact HN.
+      - destruct Hrest as (Hlen & Hregs & rt & HTk). split; [exact Hlen|]. split.
+        + intros m cr Hm. rewrite (nth_error_map_reg F1 _ _ _ (Hregs m cr Hm)). f_equal. f_equal.
+          apply A1; [cbn; lia|cbn; congruence|apply above_other; cbn; congruence].
+        + exists rt. rewrite O1 by (auto; lia). exact HTk. }
+    assert (Hidx' : idx + length X <= length (insert_at idx X cs)) by (rewrite insert_at_length; lia).
+    destruct (IH ts1 (map (option_map F1) rs) pr tid ri T' p kd (insert_at idx X cs) (idx + length X) Hpr1 T1 HG' Hidx' Hok1 Hnd'
+                ltac:(intros Hin; apply Hnin; now right)) as (ts2 & F2 & R2 & L2 & T2 & O2 & A2 & B2).
+    exists ts2, (fun g => F2 (F1 g)). rewrite <- map_option_map_comp.
+    split; [|split; [lia|split; [|split; [|split]]]].
+    + cbn [flat_map]. eapply m_attach_all_app; [exact R1|].
+      assert (length (ph_regs ph) = length X) as ->.
+      { unfold phase_ok in Hph. unfold X. destruct (ph_root ph).
+        - destruct Hph as (N & cr & rc & -> & -> & _). reflexivity.
+        - now destruct Hph as (Hlen & _). }
+      exact R2.
+    + rewrite T2. unfold T'. rewrite (upd_path_const2 _ _ _ _ _ HG). f_equal. f_equal.
+      eapply upd_path_ext; [exact HG|]. cbn [flat_map]. fold X. now rewrite insert_at_app2.
+    + intros j H1 H2 H3. cbn [map] in H2. rewrite O2; [apply O1; [exact H1|intros E; apply H2; now left|exact H3]|exact H1|intros Hin; apply H2; now right|lia].
+    + intros g Hg Ht Ha. cbn [map] in Ht. rewrite A1; [apply A2; [lia|intros Hin; apply Ht; now right|exact Ha]|exact Hg|intros E; apply Ht; now left|exact Ha].
+    + intros c rest. rewrite B1, B2. cbn [flat_map]. fold X. rewrite app_length. do 3 f_equal.
+      destruct (idx <=? c) eqn:E.
+      * apply Nat.leb_le in E. assert (idx + length X <=? c + length X = true) as -> by (apply Nat.leb_le; lia). lia.
+      * apply Nat.leb_gt in E. assert (idx + length X <=? c = false) as -> by (apply Nat.leb_gt; lia). reflexivity.
+Qed.
+
+(* what alloc_fresh leaves behind: the phases, in order *)
+Lemma token_run_spec l : let '(a, b) := token_run l in
+  l = a ++ b /\ Forall (fun x => is_node x = false) a /\ match b with Tok _ _ :: _ => False | _ => True end.
+Proof.
+  induction l as [|x r IH]; [cbn; auto|]. destruct x as [k s|k cs]; cbn [token_run].
+  - destruct (token_run r) as [a b]. destruct IH as (-> & Ha & Hb). repeat split; auto.
+  - repeat split; auto.
+Qed.
+Lemma phase_ok_mono ts rs ts2 rs2 ph : phase_ok ts rs ph -> phase_ok (ts ++ ts2) (rs ++ rs2) ph.
+Proof.
+  unfold phase_ok. destruct (ph_root ph).
+  - intros (N & cr & rc & E1 & E2 & H1 & H2). exists N, cr, rc. repeat split; auto using nth_error_app_l.
+  - intros (Hl & Hr & rt & Ht). split; [exact Hl|]. split; [intros m cr Hm; apply nth_error_app_l; now apply Hr|].
+    exists rt. now apply nth_error_app_l.
+Qed.
+
+Lemma alloc_fresh_spec : forall fuel new ts rs, length new <= fuel ->
+  exists phs ts2 rs2,
+    runs (alloc_fresh fuel new) (mk_state ts rs) (flat_map ph_regs phs) (mk_state (ts ++ ts2) (rs ++ rs2)) /\
+    flat_map ph_elems phs = new /\
+    Forall (phase_ok (ts ++ ts2) (rs ++ rs2)) phs /\
+    NoDup (map ph_tree phs) /\ Forall (fun ph => length ts <= ph_tree ph) phs.
+Proof.
+  induction fuel as [|fuel IH]; intros new ts rs Hf.
+  - destruct new; [|cbn in Hf; lia]. exists [], [], []. rewrite !app_nil_r. split; [cbn; rdone|]. repeat split; constructor.
+  - destruct new as [|x rest].
+    + exists [], [], []. rewrite !app_nil_r. split; [cbn; rdone|]. repeat split; constructor.
+    + destruct x as [k s|k cs].
+      * (* a run of tokens *)
+        pose proof (token_run_spec (Tok k s :: rest)) as Hsp. cbn [alloc_fresh].
+        destruct (token_run (Tok k s :: rest)) as [toks rest'] eqn:Etr. destruct Hsp as (Enew & Htoks & Hrest').
+        assert (Hne : toks <> []).
+        { cbn [token_run] in Etr. destruct (token_run rest). injection Etr as <- <-. discriminate. }
+        set (tk := length ts). set (ts1 := ts ++ [mk_slot true 0 (Node ROOT toks)]).
+        set (hs := map (child_h (mk_hnd tk [])) (seq 0 (length toks))). set (rs1 := rs ++ map Some hs).
+        assert (Lr : length rest' <= fuel).
+        { assert (length (Tok k s :: rest) = length toks + length rest') by (rewrite Enew at 1; apply app_length).
+          destruct toks; [congruence|]. cbn [length] in *. lia. }
+        destruct (IH rest' ts1 rs1 Lr) as (phs & ts2 & rs2 & R & Eel & Hok & Hnd & Hge).
+        exists (mk_phase tk false toks (seq (length rs) (length toks)) :: phs), ([mk_slot true 0 (Node ROOT toks)] ++ ts2), (map Some hs ++ rs2).
+        rewrite !app_assoc. fold ts1 rs1. split; [|split; [|split; [|split]]].
+        -- rbind; [apply runs_alloc|]. fold ts1 tk. rbind; [apply runs_push_tmps|]. fold hs rs1.
+           unfold hs at 1. rewrite map_length, seq_length. rbind; [exact R|]. cbn [flat_map ph_regs]. rdone.
+        -- cbn [flat_map ph_elems]. now rewrite Eel.
+        -- constructor; [|exact Hok]. apply phase_ok_mono. unfold phase_ok. cbn [ph_root ph_regs ph_elems ph_tree].
+           split; [now rewrite seq_length|]. split.
+           ++ intros m cr Hm. assert (Hml : m < length toks) by (apply nth_error_Some_lt in Hm; now rewrite seq_length in Hm).
+              rewrite <- (map_id (seq (length rs) (length toks))) in Hm. rewrite nth_error_map_seq in Hm by exact Hml. injection Hm as <-. unfold rs1.
+              rewrite nth_error_app2 by lia. replace (length rs + m - length rs) with m by lia. rewrite nth_error_map.
+              unfold hs. rewrite nth_error_map_seq by exact Hml. reflexivity.
+           ++ exists 0. unfold ts1, tk. apply nth_error_app_at.
+        -- cbn [map ph_tree]. constructor; [|exact Hnd]. intros Hin. apply in_map_iff in Hin as (q & Eq & Hq).
+           rewrite Forall_forall in Hge. specialize (Hge q Hq). unfold ts1 in Hge. rewrite app_length in Hge. cbn in Hge. unfold tk in Eq. lia.
+        -- constructor; [cbn; unfold tk; lia|]. eapply Forall_impl; [|exact Hge]. intros q Hq. unfold ts1 in Hq. rewrite app_length in Hq. cbn in Hq. lia.
+      * (* a node *)
+        cbn [alloc_fresh]. set (tk := length ts). set (ts1 := ts ++ [mk_slot true 0 (Node k cs)]). set (rs1 := rs ++ [Some (mk_hnd tk [])]).
+        destruct (IH rest ts1 rs1 ltac:(cbn in Hf; lia)) as (phs & ts2 & rs2 & R & Eel & Hok & Hnd & Hge).
+        exists (mk_phase tk true [Node k cs] [length rs] :: phs), ([mk_slot true 0 (Node k cs)] ++ ts2), ([Some (mk_hnd tk [])] ++ rs2).
+        rewrite !app_assoc. fold ts1 rs1. split; [|split; [|split; [|split]]].
+        -- rbind; [apply runs_alloc|]. fold ts1 tk. rbind; [apply runs_push_tmp|]. fold rs1. rbind; [exact R|]. cbn [flat_map ph_regs app]. rdone.
+        -- cbn [flat_map ph_elems app]. now rewrite Eel.
+        -- constructor; [|exact Hok]. apply phase_ok_mono. unfold phase_ok. cbn [ph_root ph_regs ph_elems ph_tree].
+           exists (Node k cs), (length rs), 0. repeat split; [unfold rs1; apply nth_error_app_at|unfold ts1, tk; apply nth_error_app_at].
+        -- cbn [map ph_tree]. constructor; [|exact Hnd]. intros Hin. apply in_map_iff in Hin as (q & Eq & Hq).
+           rewrite Forall_forall in Hge. specialize (Hge q Hq). unfold ts1 in Hge. rewrite app_length in Hge. cbn in Hge. unfold tk in Eq. lia.
+        -- constructor; [cbn; unfold tk; lia|]. eapply Forall_impl; [|exact Hge]. intros q Hq. unfold ts1 in Hq. rewrite app_length in Hq. cbn in Hq. lia.
+Qed.
+
+(* splice_children(idx..idx, new) with freshly built elements, on ANY node of ANY tree: the node's
+   children get [new] at idx; nothing else in the store changes; handles at or above the node stay,
+   handles to its children (and below) move with their child *)
+Theorem m_insert_fresh_spec new ts rs r tid ri T p kd cs idx :
+  nth_error rs r = Some (Some (mk_hnd tid p)) -> nth_error ts tid = Some (mk_slot true ri T) ->
+  get_path T p = Some (Node kd cs) -> idx <= length cs ->
+  exists ts' F,
+    runs (m_insert_fresh r idx new) (mk_state ts rs) tt (mk_state ts' (map (option_map F) rs)) /\
+    length ts <= length ts' /\
+    nth_error ts' tid = Some (mk_slot true ri (upd_path T p (fun _ => Node kd (insert_at idx new cs)))) /\
+    (forall j, j <> tid -> j < length ts -> nth_error ts' j = nth_error ts j) /\
+    (forall g, h_tid g < length ts -> above tid p g -> F g = g) /\
+    (forall c rest, F (mk_hnd tid (p ++ c :: rest)) = mk_hnd tid (p ++ (if idx <=? c then c + length new else c) :: rest)).
+Proof.
+  intros Hr HT HG Hidx. pose proof (nth_error_Some_lt _ _ _ HT) as Hlt.
+  destruct (alloc_fresh_spec (length new) new ts rs (le_n _)) as (phs & ts2 & rs2 & Ra & Eel & Hok & Hnd & Hge).
+  assert (Hnin : ~ In tid (map ph_tree phs)).
+  { intros Hin. apply in_map_iff in Hin as (q & Eq & Hq). rewrite Forall_forall in Hge. specialize (Hge q Hq). lia. }
+  destruct (attach_phases phs (ts ++ ts2) (rs ++ rs2) r tid ri T p kd cs idx (nth_error_app_l _ _ _ _ Hr) (nth_error_app_l _ _ _ _ HT) HG Hidx Hok Hnd Hnin)
+    as (ts' & F & R & L & T' & O & A & B).
+  exists ts', F. rewrite Eel in *. split; [|split; [|split; [|split; [|split]]]].
+  - unfold m_insert_fresh. eapply runs_eq; [apply runs_scoped|reflexivity|].
+    + rbind; [exact Ra|]. unfold m_splice. rbind; [apply runs_get_reg; apply nth_error_app_l; exact Hr|]. cbn [h_tid].
+      rbind; [eapply runs_get_slot; apply nth_error_app_l; exact HT|]. cbn [s_mut negb].
+      rbind; [eapply runs_children_of; [apply nth_error_app_l; exact HT|exact HG]|].
+      rewrite Nat.ltb_irrefl. cbn [andb]. rbind; [rdone|]. exact R.
+    + f_equal. rewrite map_app. rewrite <- (map_length (option_map F) rs). apply firstn_app_len.
+  - rewrite app_length in L. lia.
+  - exact T'.
+  - intros j H1 H2. rewrite O; [now rewrite nth_error_app1 by lia|exact H1| |rewrite app_length; lia].
+    intros Hin. apply in_map_iff in Hin as (q & Eq & Hq). rewrite Forall_forall in Hge. specialize (Hge q Hq). lia.
+  - intros g Hg Ha. apply A; [rewrite app_length; lia| |exact Ha].
+    intros Hin. apply in_map_iff in Hin as (q & Eq & Hq). rewrite Forall_forall in Hge. specialize (Hge q Hq). lia.
+  - exact B.
 Qed.
 
 (* ------------------------------------------------------------------ building operands with the constructors *)
